@@ -17,6 +17,18 @@ bor = z3.Function("bor", I, I, I)
 bxor = z3.Function("bxor", I, I, I)
 pow2 = z3.Function("pow2", I, I)
 popcount = z3.Function("popcount", I, I)
+bnot = z3.Function("bnot", I, I)          # ~x
+pmod = z3.Function("pmod", I, I, I)       # x % m for a symbolic positive modulus m
+
+
+def bnot_axioms():
+    x = z3.Int("x!bn")
+    return [z3.ForAll([x], bnot(x) == -x - 1, patterns=[bnot(x)])]
+
+
+def pmod_axioms():
+    x, m = z3.Ints("x!pm m!pm")
+    return [z3.ForAll([x, m], z3.Implies(m > 0, z3.And(0 <= pmod(x, m), pmod(x, m) < m)), patterns=[pmod(x, m)])]
 
 # (name, {var: (lo, hi)}, python expression (must be True on the whole range), trigger expressions)
 BIT_LEMMAS = [
